@@ -1,8 +1,277 @@
-import Model.RateLimiter
+import Lemmas.RateLimiterFifo
+/-! # C16 — the rate limiter never grants more than any applicable cap and never hangs
+
+Property theorems only.  The model is `Model/RateLimiter.lean`: the transition relation `RL.Step` (every critical
+section of `rate/limiter.go` is one atomic step; the ticker goroutine and the goroutine inside root `Close` have program
+counters for their lock acquisitions and the hand-over on the unbuffered `done` channel) and the executable scheduler
+`RL.exec`, which the driver `drv_c16` runs against the Go code and which only produces runs of `RL.Step`
+(`exec_is_run`).  `Reachable c s`: `s` is reachable from `rate.New(c, period)` by any interleaving of the steps — all
+trees (children may have larger caps than their parents), all request streams, `Close` at any point.  `SetCap` is not a
+step of `RL.Step` (DESIGN Appendix B).  `gsum p x s.glog` is the total amount granted in period `p` to limiter `x`
+and all its descendants, read off the log of grants. -/
 namespace C16
 open RL
 
-/-- placeholder while the pipeline is assembled -/
+/-- the executable scheduler run by the driver only produces runs of the transition relation the theorems are about -/
 theorem exec_is_run (s : S) (op : Op) (h : ∀ l c, op ≠ .setCap l c) : Steps s (exec s op) := exec_steps s op h
+
+/-- so every state the driver visits (without `SetCap`) is covered by the theorems below -/
+theorem run_reachable (c : Nat) (ops : List Op) (h : ∀ op ∈ ops, ∀ l k, op ≠ .setCap l k) :
+    Reachable c (run (init c) ops) := by
+  unfold run
+  generalize hs : init c = s
+  have hr : Reachable c s := hs ▸ Reachable.init
+  clear hs
+  induction ops generalizing s with
+  | nil => exact hr
+  | cons op ops ih =>
+    simp only [List.foldl_cons]
+    apply ih
+    · intro op' hop'; exact h op' (List.mem_cons_of_mem _ hop')
+    · exact hr.steps (exec_steps s op (h op List.mem_cons_self))
+
+/-- **granted ≤ cap**: in every period `p` the total granted by a limiter together with all its descendants is at
+    most its capacity -/
+theorem granted_le_cap (c : Nat) (s : S) (h : Reachable c s) (p x : Nat) : gsum p x s.glog ≤ s.cap x :=
+  gsum_le_cap h p x
+
+/-- … hence at most the cap of each of its ancestors: a child never consumes more than the smallest cap among
+    itself and its ancestors (`capOf s l true` is `Cap(true)`) -/
+theorem granted_le_min_cap_of_chain (c : Nat) (s : S) (h : Reachable c s) (p l : Nat) :
+    (∀ x ∈ s.chain l, gsum p l s.glog ≤ s.cap x) ∧ gsum p l s.glog ≤ capOf s l true := by
+  have t := tree h
+  have gi := grantInv h
+  have mono : ∀ x ∈ s.chain l, gsum p l s.glog ≤ gsum p x s.glog := by
+    intro x hx
+    have key : ∀ g ∈ s.glog, l ∈ g.chain → x ∈ g.chain := by
+      intro g hg hlg
+      rw [(gi.chain_eq g hg).2] at hlg ⊢
+      exact t.trans _ _ _ hlg hx
+    generalize s.glog = log at key
+    induction log with
+    | nil => exact Nat.le_refl _
+    | cons g gs ih =>
+      have k1 := key g List.mem_cons_self
+      have k2 := ih (fun g' hg' => key g' (List.mem_cons_of_mem _ hg'))
+      simp only [gsum]
+      by_cases hp : g.period = p
+      · by_cases hm : l ∈ g.chain
+        · simp only [hp, hm, k1 hm, and_self, if_true]; omega
+        · simp only [hp, hm, and_false, if_false, true_and]; split <;> omega
+      · simp only [hp, false_and, if_false]; omega
+  have each : ∀ x ∈ s.chain l, gsum p l s.glog ≤ s.cap x :=
+    fun x hx => Nat.le_trans (mono x hx) (gsum_le_cap h p x)
+  refine ⟨each, ?_⟩
+  simp only [capOf, if_true]
+  have own : gsum p l s.glog ≤ s.cap l := gsum_le_cap h p l
+  generalize s.cap l = m at own
+  generalize s.chain l = ch at each
+  induction ch generalizing m with
+  | nil => exact own
+  | cons y ys ih =>
+    simp only [List.foldl_cons]
+    apply ih
+    · have := each y List.mem_cons_self
+      exact Nat.le_min.mpr ⟨own, this⟩
+    · exact fun x hx => each x (List.mem_cons_of_mem _ hx)
+
+/-- **LastUsed**: for a limiter that is still linked into the tree, `LastUsed()` is the amount granted to it and its
+    descendants in the previous period (0 before the first tick) -/
+theorem lastUsed_spec (c : Nat) (s : S) (h : Reachable c s) (x : Nat) (hx : x < s.n) (hr : resets s x = true) :
+    s.last x = if s.ticks = 0 then 0 else gsum (s.ticks - 1) x s.glog :=
+  (grantInv h).last_eq x hx hr
+
+/-- an open limiter is still linked (`resets`), so `lastUsed_spec` applies to every limiter that is not closed -/
+theorem open_is_linked (c : Nat) (s : S) (h : Reachable c s) (x : Nat) (hx : x < s.n) (ho : s.closed x = false) :
+    resets s x = true :=
+  open_resets (tree h) x ho x ((tree h).self x hx)
+
+/-- **exactly one answer**: every request issued so far is either still in the queue or has exactly one answer, and
+    never both; requests not yet issued have none -/
+theorem answer_exactly_once (c : Nat) (s : S) (h : Reachable c s) (id : Nat) :
+    (s.waiting.map (·.id)).count id + (s.answered.map (·.1)).count id = if id < s.nextReq then 1 else 0 := by
+  have := exactlyOnce h id
+  simpa [ids, List.count_append] using this
+
+/-- … and once the ticker goroutine has ended (after root `Close`) the queue is empty: every request ever issued
+    has exactly one answer -/
+theorem answered_at_end (c : Nat) (s : S) (h : Reachable c s) (he : s.tpc = .tend) (id : Nat) (hid : id < s.nextReq) :
+    (s.answered.map (·.1)).count id = 1 := by
+  have := answer_exactly_once c s h id
+  rw [waiting_empty_at_end h he] at this
+  simpa [hid] using this
+
+/-- **nil only once charged**: a `nil` answer has an entry in the grant log (for a limiter of the tree, charged to
+    its whole chain) … -/
+theorem nil_only_after_charge (c : Nat) (s : S) (h : Reachable c s) (id : Nat) (hok : (id, Ans.ok) ∈ s.answered) :
+    ∃ g ∈ s.glog, g.id = id ∧ g.lim < s.n ∧ g.chain = s.chain g.lim := by
+  obtain ⟨g, hg, hid⟩ := ok_granted h id hok
+  exact ⟨g, hg, hid, (grantInv h).chain_eq g hg⟩
+
+/-- … and the log is what `used` accounts for: for every linked limiter `used` is exactly the sum of the grants of
+    the current period to it and its descendants (for unlinked, closed ones it is at least that) -/
+theorem used_is_sum_of_grants (c : Nat) (s : S) (h : Reachable c s) (x : Nat) :
+    gsum s.ticks x s.glog ≤ s.used x ∧ (x < s.n → resets s x = true → gsum s.ticks x s.glog = s.used x) :=
+  ⟨(grantInv h).cur_le x, (grantInv h).cur_eq x⟩
+
+/-- a positive amount is never granted to a limiter that is closed at that moment -/
+theorem closed_never_granted (s s' : S) (st : Step s s') (g : Grant) (hg : g ∈ s'.glog) (hnew : g ∉ s.glog)
+    (hpos : 0 < g.amt) : s.closed g.lim = false := by
+  rcases grant_open st g hg with h | h | h
+  · exact absurd h hnew
+  · omega
+  · exact h
+
+/-- **immediate errors**: a negative amount, an amount above the limiter's own cap, and a closed limiter are answered
+    at once with the corresponding error, and nothing is queued -/
+theorem immediate_errors (c : Nat) (s : S) (h : Reachable c s) (l : Nat) (amt : Int) (hl : l < s.n) :
+    (amt < 0 → exec s (.use l amt) = answer s .errNeg) ∧
+    (0 < amt → s.closed l = true → exec s (.use l amt) = answer s .errClosed) ∧
+    (0 < amt → s.closed l = false → amt.toNat > s.cap l → exec s (.use l amt) = answer s .errCap) := by
+  have hlk : s.lockHeld = false := lockFree h
+  refine ⟨?_, ?_, ?_⟩
+  · intro ha; simp [exec, hl, ha]
+  · intro ha hc
+    have h1 : ¬ amt < 0 := by omega
+    have h2 : ¬ amt = 0 := by omega
+    simp [exec, hl, h1, h2, hlk, hc]
+  · intro ha hc hb
+    have h1 : ¬ amt < 0 := by omega
+    have h2 : ¬ amt = 0 := by omega
+    simp [exec, hl, h1, h2, hlk, hc, hb]
+
+/-- the other two outcomes of `Use`: granted at once exactly when there is room along the whole chain, queued (at
+    the end of the queue) otherwise -/
+theorem use_grants_iff_room (c : Nat) (s : S) (h : Reachable c s) (l : Nat) (amt : Int) (hl : l < s.n) (ha : 0 < amt)
+    (ho : s.closed l = false) (hb : amt.toNat ≤ s.cap l) :
+    exec s (.use l amt) =
+      if fits s.cap s.used (s.chain l) amt.toNat then doUseGrant s l amt.toNat else doUseWait s l amt.toNat := by
+  have hlk : s.lockHeld = false := lockFree h
+  have h1 : ¬ amt < 0 := by omega
+  have h2 : ¬ amt = 0 := by omega
+  have h3 : ¬ amt.toNat > s.cap l := by omega
+  simp [exec, hl, h1, h2, hlk, ho, h3]
+
+/-- **FIFO**: the queue is in arrival order; a tick serves it front to back — what happens to a request depends only
+    on the requests ahead of it (`service (pre ++ post)` = serve `pre`, then `post` with what `pre` left) — and the
+    requests that keep waiting keep their order -/
+theorem waiting_served_fifo_as_capacity_returns (c : Nat) (s : S) (h : Reachable c s) :
+    s.waiting.Pairwise (fun a b => a.id < b.id) ∧
+    (∀ pre post : List Req, ∀ (u : Nat → Nat), ∀ p,
+      let t1 := service s.cap s.chain s.closed p u pre
+      let t2 := service s.cap s.chain s.closed p t1.used post
+      service s.cap s.chain s.closed p u (pre ++ post) =
+        ⟨t2.used, t1.waiting ++ t2.waiting, t1.answers ++ t2.answers, t1.grants ++ t2.grants⟩) ∧
+    (doTickRuns s).waiting.Sublist s.waiting :=
+  ⟨queue_sorted h, fun pre post u p => service_append _ _ _ p u pre post, service_waiting_sub _ _ _ _ _ _⟩
+
+/-- **as capacity returns**: at a tick, the request at the head of the queue is granted if its limiter is open and
+    its amount is within the capacity of every limiter on its chain.  (A request above an ancestor's cap waits until
+    `Close`: DESIGN Appendix B, not claimed.) -/
+theorem head_of_queue_served_at_tick (c : Nat) (s : S) (h : Reachable c s) (r : Req) (rest : List Req)
+    (hw : s.waiting = r :: rest) (ho : s.closed r.lim = false) (hfit : ∀ x ∈ s.chain r.lim, r.amt ≤ s.cap x) :
+    (r.id, Ans.ok) ∈ (doTickRuns s).answered :=
+  head_served h r rest hw ho hfit
+
+/-- **Close marks the subtree**: after `Close` of limiter `l` (root or child, open or already closed) `l` and every
+    descendant are closed.  (For an open root the scheduler performs the whole `Close`, which needs the closer not to
+    have started and the ticker goroutine at its `select` — true in every state the scheduler itself produces.) -/
+theorem close_marks_subtree (c : Nat) (s : S) (h : Reachable c s) (l : Nat) (hl : l < s.n)
+    (hsched : l ≠ 0 ∨ s.closed 0 = true ∨ (s.cpc = .idle ∧ s.tpc = .sel)) :
+    (∀ x, l ∈ s.chain x → (exec s (.close l)).closed x = true) ∧ (exec s (.close l)).closed l = true := by
+  have t := tree h
+  have hlk : s.lockHeld = false := lockFree h
+  have main : ∀ x, l ∈ s.chain x → (exec s (.close l)).closed x = true := by
+    intro x hx
+    cases hc : s.closed l with
+    | true => simp only [exec, hl, hlk, hc]; simpa using t.down x l hc hx
+    | false =>
+      by_cases h0 : l = 0
+      · subst h0
+        rcases hsched with h1 | h1 | h1
+        · exact absurd rfl h1
+        · rw [hc] at h1; cases h1
+        · simp [exec, hl, hlk, hc, h1, doDrain, doDoneReceived, doCloseRootMark]
+      · simp [exec, hl, hlk, hc, h0, doCloseChild, hx]
+  exact ⟨main, main l (t.self l hl)⟩
+
+/-- **Close marks the subtree and fails the pending requests** (the two halves together): after `Close l` everything
+    below `l` is closed, and every request then waiting on a closed limiter is answered "closed" by the next tick of
+    the ticker goroutine or by its final drain, whichever comes first -/
+theorem close_marks_subtree_and_fails_pending (c : Nat) (s : S) (h : Reachable c s) (l : Nat) (hl : l < s.n)
+    (hsched : l ≠ 0 ∨ s.closed 0 = true ∨ (s.cpc = .idle ∧ s.tpc = .sel)) :
+    let s' := exec s (.close l)
+    (∀ x, l ∈ s.chain x → s'.closed x = true) ∧
+    (∀ r ∈ s'.waiting, s'.closed r.lim = true →
+      (r.id, Ans.errClosed) ∈ (doTickRuns s').answered ∧ (r.id, Ans.errClosed) ∈ (doDrain s').answered) := by
+  refine ⟨(close_marks_subtree c s h l hl hsched).1, ?_⟩
+  intro r hr hc
+  exact ⟨List.mem_append_left _ (service_closed _ _ _ _ _ _ r hr hc),
+         List.mem_append_left _ (List.mem_map.mpr ⟨r, hr, rfl⟩)⟩
+
+/-- root `Close` as performed by the scheduler: everything is closed, the queue is drained, the goroutine has ended
+    and `Close` has returned -/
+theorem root_close_completes (c : Nat) (s : S) (h : Reachable c s) (ho : s.closed 0 = false)
+    (hsched : s.cpc = .idle ∧ s.tpc = .sel) :
+    let s' := exec s (.close 0)
+    (∀ x, s'.closed x = true) ∧ s'.waiting = [] ∧ s'.tpc = .tend ∧ s'.cpc = .ret ∧
+    (∀ r ∈ s.waiting, (r.id, Ans.errClosed) ∈ s'.answered) := by
+  have hlk : s.lockHeld = false := lockFree h
+  have hn : 0 < s.n := init_n_pos h
+  have he : exec s (.close 0) = doDrain (doDoneReceived (doCloseRootMark s)) := by
+    simp [exec, hn, hlk, ho, hsched]
+  simp only [he]
+  refine ⟨fun _ => rfl, rfl, rfl, rfl, ?_⟩
+  intro r hr
+  exact List.mem_append_left _ (List.mem_map.mpr ⟨r, hr, rfl⟩)
+
+/-- closed is for ever -/
+theorem closed_stays_closed (s s' : S) (st : Step s s') (x : Nat) (hx : x < s.n) (h : s.closed x = true) :
+    s'.closed x = true := closed_mono st x hx h
+
+/-- **Close fails the pending requests**: a request waiting on a closed limiter is answered "closed" by the next
+    tick, and every waiting request is answered "closed" by the drain that follows root `Close`; with
+    `answer_exactly_once` that is its only answer -/
+theorem close_fails_pending (s : S) (r : Req) (hr : r ∈ s.waiting) :
+    (s.closed r.lim = true → (r.id, Ans.errClosed) ∈ (doTickRuns s).answered) ∧
+    (r.id, Ans.errClosed) ∈ (doDrain s).answered := by
+  constructor
+  · intro hc
+    exact List.mem_append_left _ (service_closed _ _ _ _ _ _ r hr hc)
+  · exact List.mem_append_left _ (List.mem_map.mpr ⟨r, hr, rfl⟩)
+
+/-- after root `Close` has marked the tree every limiter is closed, and stays so -/
+theorem root_close_closes_all (c : Nat) (s : S) (h : Reachable c s) (hc : s.cpc ≠ .idle) (x : Nat) :
+    s.closed x = true := allClosed h (Or.inl hc) x
+
+/-- **Close returns** (deadlock freedom of the lock / `done` protocol as repaired): the lock is never held while a
+    goroutine is blocked; no reachable state has the closer blocked on `done` with neither it nor the ticker goroutine
+    able to move; and from every such state at most two steps of the ticker goroutine complete the hand-over -/
+theorem close_returns (c : Nat) (s : S) (h : Reachable c s) :
+    s.lockHeld = false ∧ ¬ Deadlocked s ∧ (s.cpc = .send → ∃ s', Steps s s' ∧ s'.cpc = .ret) :=
+  ⟨lockFree h, not_deadlocked h, close_can_return h⟩
+
+/-- `Close` of a child, and every other call that only needs the lock, is enabled in every reachable state (nobody
+    keeps the lock) -/
+theorem child_close_returns (c : Nat) (s : S) (h : Reachable c s) (l : Nat) (hl : l < s.n) (h0 : l ≠ 0)
+    (ho : s.closed l = false) : Step s (doCloseChild s l) :=
+  Step.closeChild s l hl h0 (lockFree h) ho
+
+/-- the ticker goroutine, too, always gets the lock: both of its critical sections are enabled whenever it waits -/
+theorem ticker_never_blocked (c : Nat) (s : S) (h : Reachable c s) :
+    (s.tpc = .tlock → Step s (doTickRuns s)) ∧ (s.tpc = .dlock → Step s (doDrain s)) :=
+  ⟨fun ht => Step.tickRuns s ht (lockFree h), fun ht => Step.drain s ht (lockFree h)⟩
+
+/-- contrast (the code before the repair kept the lock during the hand-over): a state with the lock held, the closer
+    blocked on `done` and the ticker goroutine waiting for the lock is stuck — `close_returns` is not vacuous -/
+theorem held_lock_would_deadlock (s : S) (h0 : s.lockHeld = true) (h1 : s.tpc = .tlock) (h2 : s.cpc = .send) :
+    Deadlocked s := held_lock_is_stuck s h0 h1 h2
+
+/-! non-vacuity: a concrete run (root cap 5, child cap 9 above its parent): the second `Use(3)` on the child waits
+    although the child has room, is served by the tick, and `LastUsed` of the root reports 4. -/
+example :
+    let s := run (init 5) [.newChild 0 9, .use 1 3, .use 1 3, .use 0 1, .tick]
+    s.answered = [(1, .ok), (2, .ok), (0, .ok)] ∧ s.last 0 = 4 ∧ s.used 0 = 3 ∧ s.waiting.length = 0 := by
+  decide
 
 end C16
